@@ -95,12 +95,16 @@ def exact_stream(ctx):
         lr = Fraction(rng.choice([0, 1, 1, 3]), 2 ** rng.randrange(0, 4))
         p = KFACPreconditioner(m, kl_clip=float(kl), lr=float(lr))
         tot = Fraction(0)
-        for (name, lay) in p._layers.values():
+        # sometimes one layer's gradient is exactly zero (an auxiliary head whose loss weight is 0, dead units): its inner
+        # product contributes 0, the scalar is still the one of the whole sum
+        zero_layer = rng.randrange(2) if rng.random() < 0.3 else None
+        for li, (name, lay) in enumerate(p._layers.values()):
             mod = lay.module
             a, g = mod.a_factor_shape[0], mod.g_factor_shape[0]
-            mod.module.weight.grad = torch.tensor([[float(rng.randrange(-4, 5)) for _ in range(a - int(mod.has_bias()))] for _ in range(g)], dtype=torch.float64)
+            z = 0 if li == zero_layer else 1
+            mod.module.weight.grad = torch.tensor([[float(z * rng.randrange(-4, 5)) for _ in range(a - int(mod.has_bias()))] for _ in range(g)], dtype=torch.float64)
             if mod.has_bias():
-                mod.module.bias.grad = torch.tensor([float(rng.randrange(-4, 5)) for _ in range(g)], dtype=torch.float64)
+                mod.module.bias.grad = torch.tensor([float(z * rng.randrange(-4, 5)) for _ in range(g)], dtype=torch.float64)
             V = torch.tensor([[rng.randrange(-8, 9) / 2 for _ in range(a)] for _ in range(g)], dtype=torch.float64)
             lay.grad = V
             D = mod.get_grad()
@@ -180,6 +184,42 @@ def half_stream(ctx):
         ctx.count('half-' + kind)
 
 
+def external_lr_stream(ctx):
+    """lr (and kl_clip) given as callables that read external state (lr=lambda s: optimizer.param_groups[0]['lr']): the value
+    in force when the scale is computed counts, whatever was read (logged) earlier at the same step count"""
+    from kfac.preconditioner import KFACPreconditioner
+    rng = ctx.rng
+    for _ in range(ctx.budget(20, 150)):
+        m = torch.nn.Sequential(torch.nn.Linear(2, 2, bias=rng.random() < 0.5)).double()
+        lr_cell = [float(Fraction(rng.choice([1, 3]), 2 ** rng.randrange(0, 5)))]
+        kl_cell = [float(Fraction(1, 2 ** rng.randrange(2, 10)))]
+        p = KFACPreconditioner(m, kl_clip=lambda s: kl_cell[0], lr=lambda s: lr_cell[0])
+        (name, lay), = p._layers.values()
+        mod = lay.module
+        a, g = mod.a_factor_shape[0], mod.g_factor_shape[0]
+        mod.module.weight.grad = torch.tensor([[float(rng.randrange(1, 5)) for _ in range(a - int(mod.has_bias()))] for _ in range(g)], dtype=torch.float64)
+        if mod.has_bias():
+            mod.module.bias.grad = torch.tensor([float(rng.randrange(1, 5)) for _ in range(g)], dtype=torch.float64)
+        lay.grad = torch.tensor([[float(rng.randrange(1, 9)) / 2 for _ in range(a)] for _ in range(g)], dtype=torch.float64)
+        inner = Fraction(float((lay.grad * mod.get_grad()).sum()))
+        logged = (p.lr, p.kl_clip, p.damping)                                  # e.g. a logging call
+        lr_cell[0] = float(Fraction(rng.choice([1, 5, 7]), 2 ** rng.randrange(0, 6)))     # the LR scheduler steps
+        kl_cell[0] = float(Fraction(1, 2 ** rng.randrange(2, 10)))
+        case = {'lr_logged': logged[0], 'lr_now': lr_cell[0], 'kl_logged': logged[1], 'kl_now': kl_cell[0], 'sum_inner': str(inner)}
+        try:
+            scale = p._compute_grad_scale()
+        except Exception as e:  # noqa: BLE001
+            ctx.fail(f'_compute_grad_scale raised {type(e).__name__}: {e}', case, 'ext-scale-raised')
+            continue
+        s_ = abs(inner * Fraction(lr_cell[0]) ** 2)
+        want = 1.0 if s_ == 0 else min(1.0, (kl_cell[0] / float(s_)) ** 0.5)
+        if abs(scale - want) > 1e-12 * want:
+            ctx.fail(f'_compute_grad_scale() = {scale}, but with the learning rate {lr_cell[0]} and clip {kl_cell[0]} now in force '
+                     f'min(1, sqrt(kl/|Σ<V,D> lr²|)) = {want}', dict(case, scale=scale), 'nu-stale-hyper')
+        ctx.evaluations += 1
+        ctx.count('external-lr')
+
+
 def ctor_stream(ctx):
     from kfac.preconditioner import KFACPreconditioner
     for method in ('eigen', 'inverse'):
@@ -216,6 +256,7 @@ def run(ctx):
     ctor_stream(ctx)
     exact_stream(ctx)
     half_stream(ctx)
+    external_lr_stream(ctx)
     twin_stream(ctx)
     rng = ctx.rng
     cfgs = []
@@ -237,6 +278,16 @@ def run(ctx):
         cfg.hyper['kl_clip'] = [rng.choice([None, Fraction(10**6), Fraction(1, 10**5), Fraction(1, 10**3), Fraction(0)]) for _ in range(nsteps)]
         cfg.hyper['lr'] = Fraction(1, 10)
         cfg.ops = (['f1'] * cfg.accum + ['s']) * nsteps
+        cfgs.append(cfg)
+    # a checkpoint is loaded into a preconditioner constructed with other constants — in particular with clipping
+    # enabled where the checkpoint has none and vice versa: the restored kl_clip is the one that counts
+    for _ in range(ctx.budget(8, 60)):
+        cfg = kfacsim.Config(rng, world=rng.choice([1, 2]))
+        cfg.hyper['kl_clip'] = rng.choice([Fraction(1, 10**5), Fraction(1, 10**4), None])
+        cfg.hyper['lr'] = Fraction(1, 10)
+        cfg.perturb_ctor = True
+        it = ['f1'] * cfg.accum + ['s']
+        cfg.ops = it + ['l11'] + it * 2
         cfgs.append(cfg)
     kfacsim.run_batch(ctx, cfgs, ('grads', 'ranks'), oracles=(kfacsim.oracle_reference,), whole_only_oracles=False)
 
